@@ -228,7 +228,7 @@ impl Sim {
         sv
     }
 
-    /// `t:<amt>` transfer(from,to,amt) | `x:<amt>` transfer with a 4th argument |
+    /// `t:<amt>` transfer(from,to,amt) | `s:<amt>` transfer(from,from,amt) | `x:<amt>` transfer with a 4th argument |
     /// `m:<what>` transfer whose argument 2 is missing / not an i128 | `o:<fn>` another function |
     /// `c:wasm` / `c:ctor` create-contract contexts
     fn mk_ctx(&self, c: &str) -> Context {
@@ -243,6 +243,11 @@ impl Sim {
             "t" => {
                 let amt: i128 = rest.parse().unwrap();
                 call("transfer", SVec::from_array(e, [from, to, amt.into_val(e)]))
+            }
+            "s" => {
+                // the sender names itself as recipient: the amount is spent like any other
+                let amt: i128 = rest.parse().unwrap();
+                call("transfer", SVec::from_array(e, [from, from, amt.into_val(e)]))
             }
             "x" => {
                 let amt: i128 = rest.parse().unwrap();
@@ -663,6 +668,8 @@ fn directed_spend(t: &mut Trace) {
         s.try_enforce(t, 'l', 0, 0, &[0], c, &[0], &[0]);
     }
     s.advance(t, 30);
+    s.try_enforce(t, 'l', 0, 0, &[0], "s:40", &[0], &[0]); // self-transfer over what is left in the window
+    s.try_enforce(t, 'l', 0, 0, &[0], "s:20", &[0], &[0]);
     s.try_enforce(t, 'l', 0, 0, &[0], "x:10", &[0], &[0]);
     s.try_enforce(t, 'l', 0, 0, &[0], "t:10", &[], &[0]); // no authenticated signer
     s.try_enforce(t, 'l', 0, 0, &[], "t:10", &[], &[0]); // ... on a rule that has no signers of its own either
@@ -839,7 +846,8 @@ fn subset(rng: &mut Rng, n: usize, p: u64) -> Vec<usize> {
 
 fn gen_ctx(rng: &mut Rng, amt: i128) -> String {
     match rng.below(100) {
-        0..=79 => format!("t:{}", amt),
+        0..=69 => format!("t:{}", amt),
+        70..=79 => format!("s:{}", amt),
         80..=84 => format!("x:{}", amt),
         85..=92 => format!("m:{}", rng.pick(&["short", "empty", "u32", "u64", "i64", "u128", "i256", "sym", "addr", "void"])),
         93..=97 => format!("o:{}", rng.pick(&["approve", "transfer_from", "Transfer", "burn"])),
